@@ -28,10 +28,16 @@ Definition frQ1 : frame := mkFrame 11 1 false 8 [] None [] [] [].
 Definition frZ1 : frame := mkFrame 12 1 false 8 [] None [] [] [].
 Definition mat (fs : list frame) : matrix := mkMatrix fs [] [] [] [] [] [] [].
 
-Ltac nodup := repeat (constructor; [cbn; intuition congruence|]); constructor.
+Ltac nodup := repeat (constructor; [cbv; intuition congruence|]); constructor.
+Ltac wf_step :=
+  match goal with
+  | |- NoDup _ => nodup
+  | |- Forall _ _ => constructor
+  | |- _ /\ _ => split
+  | |- ~ In _ _ => cbn; intuition congruence
+  end.
 Ltac wf_mat :=
-  unfold wf_matrix, wf_frame, names_ok_frame, dicts_ok_frame, dicts_ok_signal, keys; cbn;
-  repeat split; try nodup; repeat (constructor; try nodup; repeat split).
+  unfold wf_matrix, wf_frame, wf_ecu, names_ok_frame, dicts_ok_frame, dicts_ok_signal, keys; cbn; repeat wf_step.
 
 (* swap fails when a frame of one matrix shares its identifier with a differently named frame of the other:
    a = {P(id 1, signal x), Q(id 2)}, b = {Q(id 1)}.  compare a b matches P with Q by identifier and reports x deleted;
@@ -90,3 +96,8 @@ Proof.
   cbn. eexists. split; [left; reflexivity|]. repeat split.
   eexists. split; [right; left; reflexivity|]. repeat split. left. reflexivity.
 Qed.
+
+Lemma cli_flags_to_ignore :
+  forall c a t, let i := cli_ignore c a t in
+    ig_comment i = negb c /\ ig_attr i = negb a /\ ig_vt i = t /\ ig_def i = false.
+Proof. intros c a t. repeat split. Qed.
